@@ -1,5 +1,6 @@
 import TpmVerif.Base.Trace
 import TpmVerif.Model.Tpm12Persist
+import TpmVerif.Check.C20
 /-! Correspondence checker for C19 traces.  The harness traces, per command, the digest of the live permanent state
     (`TPMLIB_GetState(PERMANENT)`), the digest of the payload last accepted by the storage callback, the number of
     store/load callbacks and whether an injected fault fired.  This checker (i) evaluates the property's clauses
@@ -153,6 +154,29 @@ def step (c : CS) (l : Line) : CS :=
       mism c s!"SPEC[{l.str "sig"}] {l.str "kind"} report in {l.str "site"} during {what} (history {l.str "hist"}, call {l.str "idx"})"
   | _ => c
 
-def check (ls : List Line) : Report := (ls.foldl step {}).rep
+/-- which lines belong to a history borrowed from the C20 scenario (a `borrow` line follows the `hist` line) -/
+def borrowedMask (ls : List Line) : List Bool :=
+  let (rev, _) := ls.foldl (fun (acc : List Bool × Bool) l =>
+    let (m, inB) := acc
+    if l.kind = "hist" then (false :: m, false)
+    else if l.kind = "borrow" then (true :: (match m with | _ :: t => true :: t | [] => []), true)
+    else (inB :: m, inB)) ([], false)
+  rev.reverse
+
+def blank : Line := { kind := "", args := [] }
+
+/-- C19's own lines go through C19's checker; the NV/counter histories borrowed from the C20 scenario — where refused ordinals
+    roll the permanent state back from storage while volatile NV flags must be carried over — go through C20's model.
+    Lines of the other kind are blanked, not removed, so that line numbers stay those of the trace. -/
+def check (ls : List Line) : Report :=
+  let mask := borrowedMask ls
+  let own := (ls.zip mask).map (fun (l, b) => if b then blank else l)
+  let bor := (ls.zip mask).map (fun (l, b) => if b then l else blank)
+  let r1 := (own.foldl step {}).rep
+  let r2 := TpmVerif.Check.C20.check bor
+  { mismatches := r1.mismatches ++ r2.mismatches.map (fun m => m ++ " [NV history judged by Model.Tpm12Nv: rollback after a refused ordinal]"),
+    events := r1.events + r2.events,
+    branches := r1.branches ++ r2.branches.map (fun b => "c20/" ++ b),
+    notes := r1.notes ++ r2.notes }
 
 end TpmVerif.Check.C19
